@@ -41,11 +41,14 @@ Inductive rule : Set :=
 | R12_gap_poll_outside_gap | R12_two_gap_polls_per_visit | R12_reply_without_request | R12_reply_untruthful
 | R12_reply_from_wrong_state
 | R12_found_not_successor | R12_found_not_next_token | R12_successor_changed_without_ready_reply | R12_sweep_bound
+| R12_post_claim_scan_incomplete
 (* C13 *)
 | R13_low_prio_after_hold_time | R13_second_cycle_after_hold_time | R13_high_prio_inside_hold_time
 (* C15 *)
 | R15_transmit_without_token | R15_transmit_while_outstanding | R15_round_robin | R15_reply_not_requested
-| R15_reply_invalid | R15_timeout_not_requested | R15_await_without_request.
+| R15_reply_invalid | R15_timeout_not_requested | R15_await_without_request
+| R15_asked_after_all_declined | R15_not_passed_after_all_declined | R15_passed_before_all_declined
+| R15_cycle_after_hold_time.
 
 Inductive pid : Set := PC01 | PC05 | PC06 | PC11 | PC12 | PC13 | PC15.
 Definition rule_prop (r : rule) : pid :=
@@ -57,10 +60,13 @@ Definition rule_prop (r : rule) : pid :=
   | R11_retry_too_early | R11_too_many_retries | R11_removed_too_early | R11_heard_but_supervising => PC11
   | R12_gap_poll_outside_gap | R12_two_gap_polls_per_visit | R12_reply_without_request | R12_reply_untruthful
   | R12_reply_from_wrong_state
-  | R12_found_not_successor | R12_found_not_next_token | R12_successor_changed_without_ready_reply | R12_sweep_bound => PC12
+  | R12_found_not_successor | R12_found_not_next_token | R12_successor_changed_without_ready_reply | R12_sweep_bound
+  | R12_post_claim_scan_incomplete => PC12
   | R13_low_prio_after_hold_time | R13_second_cycle_after_hold_time | R13_high_prio_inside_hold_time => PC13
   | R15_transmit_without_token | R15_transmit_while_outstanding | R15_round_robin | R15_reply_not_requested
-  | R15_reply_invalid | R15_timeout_not_requested | R15_await_without_request => PC15
+  | R15_reply_invalid | R15_timeout_not_requested | R15_await_without_request
+  | R15_asked_after_all_declined | R15_not_passed_after_all_declined | R15_passed_before_all_declined
+  | R15_cycle_after_hold_time => PC15
   end.
 
 (* ------------------------------------------------------------------------------------------ *)
@@ -134,8 +140,9 @@ Definition mon_call (p : params) (napps : nat) (k0 : state_kind) (now : Z) (roun
                       | None => 0%nat
                       | Some (j, declined) => if declined then Nat.modulo (j + 1) napps else j
                       end in
-      let e3 := check (Nat.eqb i expected) R15_round_robin in
-      let e4 := if hp then check (Nat.eqb rounds0 0) R13_second_cycle_after_hold_time
+      let e3 : list rule := [] in   (* round robin: see mon_poll2 (the acceptor of theorem C15_round_robin) *)
+      let e4 := if hp then check (Nat.eqb rounds0 0) R13_second_cycle_after_hold_time ++
+                           check (Nat.eqb rounds0 0) R15_cycle_after_hold_time
                 else check (now <? m_prev_tt m + token_rotation_time p) R13_low_prio_after_hold_time in
       let out := match r with Some (_, Some a) => Some (i, a) | _ => m_out m end in
       let declined := match r with None => true | Some _ => false end in
@@ -170,7 +177,8 @@ Definition mon_poll (p : params) (napps : nat) (m : mon) (s : pstep) : mon * lis
   let k0 := v_kind pre in
   let k1 := v_kind post in
   let grew := Nat.ltb (m_left m) (length (s_rx s)) in
-  let lba := if grew then Some (zmax_opt (m_lba m) now) else m_lba m in
+  (* RX growth, or the own transmission still seen in progress (tx_busy), is bus activity *)
+  let lba := if grew || s_busy s then Some (zmax_opt (m_lba m) now) else m_lba m in
   let sync := p_bits_to_time p prop_sync_bits in
   let slot := slot_time p in
   let silent_for (d : Z) : bool := match lba with Some l => l + d <? now | None => true end in
@@ -366,11 +374,14 @@ Record mon2 : Set := mkMon2 {
   g_expect : option Z;    (* found successor: must be the destination of the next token transmission *)
   g_visit : nat;          (* completed token visits (first token transmission of each pass) *)
   g_last : list nat;      (* per address 0..125: visit count at its last GAP request / window restart *)
-  h_end : Z               (* C13: end of the hold time of the current visit *)
+  h_end : Z;              (* C13: end of the hold time of the current visit *)
+  g_scan : option (list Z);   (* C12: after a claim, the GAP addresses the post-claim scan still has to poll *)
+  r_turn : nat;           (* C15: whose turn it is (next_application) *)
+  r_decl : nat            (* C15: applications that have declined in this visit *)
 }.
 
 Definition addr_count : nat := 126.
-Definition mon2_reset : mon2 := mkMon2 None None 0 (repeat 0%nat addr_count) 0.
+Definition mon2_reset : mon2 := mkMon2 None None 0 (repeat 0%nat addr_count) 0 None 0 0.
 
 Fixpoint set_nth_nat (l : list nat) (i : nat) (v : nat) : list nat :=
   match l, i with
@@ -388,7 +399,7 @@ Definition is_ready_master (st : resp_state) : bool :=
   (resp_state_to_byte st =? resp_state_to_byte RsMasterWithoutToken) ||
   (resp_state_to_byte st =? resp_state_to_byte RsMasterInRing).
 
-Definition mon_poll2 (p : params) (m : mon) (g : mon2) (s : pstep) : mon2 * list rule :=
+Definition mon_poll2 (p : params) (napps : nat) (m : mon) (g : mon2) (s : pstep) : mon2 * list rule :=
   let ts := p_address p in
   let now := s_now s in
   let pre := m_view m in
@@ -468,7 +479,52 @@ Definition mon_poll2 (p : params) (m : mon) (g : mon2) (s : pstep) : mon2 * list
               then m_tt m + token_rotation_time p -
                    (if v_gap_due post then p_bits_to_time p (p_slot_bits p + prop_gap_reserve_extra_bits) else 0)
               else h_end g in
-  (mkMon2 wait expect visit last2 hend, e_found ++ e_tok ++ e_sweep ++ e13).
+  (* ---- C12: the whole GAP at once right after claiming a new token ---- *)
+  let in_list (a : Z) (l : list Z) := existsb (Z.eqb a) l in
+  let scan1 := if claim_tx then Some (gap_addrs p (v_ns post))
+               else match g_scan g, gap_poll with
+                    | Some l, Some da => Some (filter (fun a => negb (a =? da)) l)
+                    | sc, _ => sc
+                    end in
+  let scan_ends := state_kind_eqb k0 KClaimToken && negb (state_kind_eqb k1 KClaimToken) in
+  let e_scan :=
+    if scan_ends && state_kind_eqb k1 KPassToken then
+      match scan1 with
+      | Some l => (let gap := gap_addrs p (v_ns post) in
+                   check (negb (existsb (fun a => in_list a gap) l)) R12_post_claim_scan_incomplete)
+      | None => []
+      end
+    else [] in
+  let scan := if scan_ends then None
+              else if kind_in k1 [KClaimToken; KListenToken; KActiveIdle] then scan1 else None in
+  (* ---- C15: the acceptor of theorem C15_round_robin (rpre / rpost of Proofs/C15Proofs.v) ---- *)
+  let in_vis (k : state_kind) := kind_in k [KUseToken; KAwaitDataResponse] in
+  let rr := fold_left
+    (fun (acc : nat * nat * list rule) c =>
+       let '(turn, decl, errs) := acc in
+       match c with
+       | CallTransmit i hp r =>
+           let e := check (Nat.eqb i turn && Nat.ltb i napps) R15_round_robin ++
+                    check (Nat.ltb decl napps) R15_asked_after_all_declined in
+           match r with
+           | None => (Nat.modulo (i + 1) napps, S decl, errs ++ e)
+           | Some _ => (turn, decl, errs ++ e)
+           end
+       | CallReceiveReply i _ _ | CallHandleTimeout i _ =>
+           (turn, decl, errs ++ check (Nat.eqb i turn) R15_round_robin)
+       end) (s_calls s) (r_turn g, r_decl g, []) in
+  let '(turn1, decl1, e_rr) := rr in
+  let e_end :=
+    if in_vis k0 then
+      (if Nat.ltb 0 napps && Nat.eqb decl1 napps
+       then check (state_kind_eqb k1 KPassToken) R15_not_passed_after_all_declined else []) ++
+      (if state_kind_eqb k1 KPassToken
+       then check (Nat.eqb decl1 napps || (h_end g <=? now)) R15_passed_before_all_declined else [])
+    else [] in
+  let turn2 := if state_kind_eqb k1 KOffline then 0%nat else turn1 in
+  let decl2 := if in_vis k1 then (if in_vis k0 then decl1 else 0%nat) else 0%nat in
+  (mkMon2 wait expect visit last2 hend scan turn2 decl2,
+   e_found ++ e_tok ++ e_sweep ++ e13 ++ e_scan ++ e_rr ++ e_end).
 
 (* ---- whole transcript ---- *)
 (* accumulator: monitor state, the API call that was the previous event (if any), violations *)
@@ -490,7 +546,7 @@ Definition mon_event (p : params) (napps : nat) (acc : option (mon * mon2) * opt
       match om with
       | Some (m, g) =>
           let (m', e') := mon_poll p napps m s in
-          let (g', e2) := mon_poll2 p m g s in
+          let (g', e2) := mon_poll2 p napps m g s in
           (Some (m', g'), None, errs ++ e' ++ e2)
       | None => (om, None, errs)
       end
